@@ -87,6 +87,12 @@ func genSqrt(r *hx.RNG, l hx.Limits) *opCase {
 		k.x = oracle.Val{Form: oracle.Finite, Coef: x, Exp: e}
 		ds := int(oracle.Digits(s))
 		k.p = int64(maxI(1, ds+[]int{-1, 0, 0, 1, 20, -3, 2}[r.Intn(7)]))
+		if r.Chance(4) {
+			// a short root at a precision of a thousand digits and more: the iterates are a few digits followed by dozens
+			// of zero words (what a squaring routine might like to skip)
+			k.p = int64(r.Range(900, 2600))
+			k.class += "-long-precision"
+		}
 	case shape < 55: // roots at or next to a rounding midpoint: x = (m + 1/2)^2 (+- tiny)
 		n := r.Range(1, maxLen/2)
 		m := hx.CoefOf(r.Digits(n))
